@@ -12,7 +12,7 @@
 From Coq Require Import NArith Arith List Bool Lia.
 From Pq Require Import Base.Bytes Base.Err Base.ListX Codec.Varint Codec.Hybrid Codec.Plain Impl.CBitpack Impl.CHybrid
   Impl.PyPack Impl.Dispatch Proofs.HybridProofs Proofs.CBitpackProofs Proofs.CHybridProofs Proofs.CPlainProofs
-  Proofs.DispatchProofs.
+  Proofs.DispatchProofs Proofs.ListXProofs Proofs.CodecProofs Proofs.CBoolProofs Codec.Bitpack.
 From PqGen Require Import GenDispatch.
 Import ListNotations.
 Open Scope N_scope.
@@ -50,6 +50,19 @@ Proof.
   apply plain_leaf_correct; assumption.
 Qed.
 Print Assumptions read_plain_correct.
+
+(* encoding.read_plain_boolean (count handed to read_bitpacked1, allocation of the output array, returned slice - all three
+   regenerated): the PLAIN boolean decoding of the page, every count, every page holding at least ceil(count/8) bytes *)
+Theorem read_plain_boolean_gen_correct : forall raw count,
+  bytes_ok raw -> (count + 7) / 8 <= N.of_nat (length raw) ->
+  read_plain_boolean_gen raw count = Ok (bool_dec count raw).
+Proof.
+  intros raw count Hok Hlen. unfold read_plain_boolean_gen.
+  rewrite read_bitpacked1_correct by (try exact Hok; rewrite ?N.min_id; exact Hlen).
+  cbn [d_vals]. rewrite ?N.min_id. f_equal.
+  rewrite takeN_ok. apply firstn_all2. unfold bool_dec. rewrite bp_dec_length. lia.
+Qed.
+Print Assumptions read_plain_boolean_gen_correct.
 
 (* ---- 2. the index decoders ----------------------------------------------------------------------------------- *)
 Theorem v1_index_dispatch_adequate : dispatch_adequate (v1_index_dispatch true) = true.
